@@ -473,7 +473,8 @@ def haar_cases(rng, tier):
 def haarnd_cases(rng, tier):
     """Haar / pywt_periodic over a SUBSET of the axes of an N-d space with anisotropic cell sides."""
     import odl
-    cs = C.CaseSet('haarnd', ['C18.ModelH', 'C18.Corr'], 'check_haarnd', 'case_haarnd')
+    css = [C.CaseSet('haarnd%d' % i, ['C18.ModelH', 'C18.Corr'], 'check_haarnd', 'case_haarnd') for i in range(4)]
+    count = 0
     todo = []
     for nd in (1, 2, 3):
         for k in range(1, nd + 1):
@@ -506,16 +507,17 @@ def haarnd_cases(rng, tier):
                 % (C.nat(L), nats(shape), nats(axes), C.qs(sides), C.qs(x.ravel().tolist()), C.qs(fwd.tolist()),
                    C.qss([v.ravel().tolist() for v in xs]), C.qs(c.tolist()), C.qs(adj.tolist()),
                    C.qs(inv.tolist()), C.qs(iadj.tolist())))
-        cs.add(term, {'shape': shape, 'axes': axes, 'nlevels': L, 'cell_sides': sides,
-                      'x': x.ravel().tolist(), 'c': c.tolist()},
-               (tuple(shape), tuple(axes), L, tuple(sides), str(x.ravel().tolist()), str(c.tolist())))
-    return cs
+        css[count % 4].add(term, {'shape': shape, 'axes': axes, 'nlevels': L, 'cell_sides': sides,
+                                  'x': x.ravel().tolist(), 'c': c.tolist()},
+                           (tuple(shape), tuple(axes), L, tuple(sides), str(x.ravel().tolist()), str(c.tolist())))
+        count += 1
+    return css
 
 
 def correspondence(rng, tier):
     C.setup_impl_path()
     return [rg_cases(rng, tier), fac_cases(rng, tier), cis_cases(rng, tier), dft_cases(rng, tier), ft_cases(rng, tier)] \
-        + wavelet_cases(rng, tier) + [haar_cases(rng, tier), haarnd_cases(rng, tier)]
+        + wavelet_cases(rng, tier) + [haar_cases(rng, tier)] + haarnd_cases(rng, tier)
 
 
 LEVEL_TEXT = ('Partial proof. Proved in Coq for ALL sizes/shapes/axes lists/shift patterns/signs: reciprocal_grid has '
@@ -997,10 +999,38 @@ def fourier_adjoint_probes(rng, tier, out):
                        % (cls, axes, impl, shape, sides), snippet)
 
 
+def aliased_inplace_probes(rng, tier, out):
+    """`op(x, out=x)` on an operator whose range IS its domain (complex space): same values as
+    out-of-place, on the very first call too (in-place clause)."""
+    shapes = [[4], [5], [8], [3, 4], [2, 3, 4]] if tier == 'quick' else [[2], [4], [5], [8], [9], [16], [3, 4], [4, 4],
+                                                                           [5, 3], [2, 3, 4]]
+    for shape, impl, sg, inv, dt in itertools.product(shapes, ['numpy', 'pyfftw'], ['-', '+'], [False, True],
+                                                      ['complex128', 'complex64']):
+        nd = len(shape)
+        axes = _rand_axes(rng, nd)
+        ctor = ("odl.trafos.DiscreteFourierTransformInverse(sp, domain=sp, axes=%r, sign=%r, impl=%r)" if inv
+                else "odl.trafos.DiscreteFourierTransform(sp, range=sp, axes=%r, sign=%r, impl=%r)") % (axes, sg, impl)
+        snippet = (_PRE + "import pyfftw\nsp = odl.uniform_discr(%r, %r, %r, dtype=%r)\n"
+                   "x0 = (%s).astype(%r)\naxes = %r\n"
+                   "ref = np.fft.fftn(x0, axes=axes) if %r == '-' else np.fft.ifftn(x0, axes=axes) * np.prod([x0.shape[a] for a in axes])\n"
+                   "if %r: ref = ref / np.prod([x0.shape[a] for a in axes])\n"
+                   "pyfftw.forget_wisdom()\nop = %s\n"
+                   "x = sp.element(x0.copy()); op(x, out=x); first = float(np.abs(np.asarray(x) - ref).max())\n"
+                   "x = sp.element(x0.copy()); op(x, out=x); second = float(np.abs(np.asarray(x) - ref).max())\n"
+                   "observed = [first, second]; expected = [0.0, 0.0]\n"
+                   "ok = max(first, second) <= %r * (1 + np.abs(ref).max())\n"
+                   % ([0.0] * nd, [1.0] * nd, shape, dt, _arr_src(rng, shape, True, dt), dt, axes, sg, inv, ctor,
+                      _tolf(dt)))
+        _probe(out, 'dft-pyfftw-aliased-inplace-firstcall' if impl == 'pyfftw' else 'dft-aliased-inplace-numpy',
+               '%s: op(x, out=x) equals the out-of-place result on the first and second call (shape %s, %s)'
+               % (ctor, shape, dt), snippet)
+
+
 def probes(rng, tier):
     C.setup_impl_path()
     out = []
     grid_probes(rng, tier, out)
+    aliased_inplace_probes(rng, tier, out)
     wavelet_axes_adjoint_probes(rng, tier, out)
     fourier_adjoint_probes(rng, tier, out)
     dft_probes(rng, tier, out)
